@@ -471,8 +471,13 @@ func propC06(r *Run) {
 		if ex, _ := exists("zq-root-admin"); ex && r.Choose("empty-the-store", 3) == 0 {
 			if adminTok := login("zq-root-admin", pw["zq-root-admin"]); adminTok != nil {
 				var present []string
-				for _, u := range names {
+				for _, u := range sortedKeysA(pw) {
 					if ex, _ := exists(u); ex && u != "zq-root-admin" {
+						present = append(present, u)
+					}
+				}
+				for _, u := range []string{"zq-nobody", "zq-mallory"} { // may have been added by earlier requests
+					if ex, _ := exists(u); ex {
 						present = append(present, u)
 					}
 				}
@@ -486,8 +491,8 @@ func propC06(r *Run) {
 					}
 				}
 				left := 0
-				for _, u := range names {
-					if ex, _ := exists(u); ex {
+				for p := range w.fs.Snapshot(cfg.BaseDir) {
+					if strings.HasSuffix(p, ".user") || strings.HasSuffix(p, ".admin") {
 						left++
 					}
 				}
